@@ -26,7 +26,8 @@ Homes == {"main", "dep", "std"}
 Froms == {"main", "dep"}
 Views == {"GoIdent", "Selector", "CompositeKey", "MethodValue", "MethodExpr", "DotImport", "NamedImport",
           "LinknameLocal", "LinknameForeign", "LinknameMethod", "LinknamePtrMethod",
-          "AsmQualified", "AsmUnqualified", "GoAsmHSize", "GoAsmHField", "GoAsmHConst", "LdflagsX"}
+          "AsmQualified", "AsmUnqualified", "GoAsmHSize", "GoAsmHField", "GoAsmHConst", "LdflagsX",
+          "StructConversion"}
 
 LocalKinds == {"typeParam", "local", "label", "typeSwitchVar"}
 PkgLevel == {"pkgvar", "const", "func", "type", "alias", "genericType"}
@@ -71,6 +72,8 @@ Legal(c) ==
        [] v = "GoAsmHField"     -> k \in {"field"} \cup Embedded /\ ~cross
        [] v = "GoAsmHConst"     -> k = "const" /\ ~cross
        [] v = "LdflagsX"        -> k = "pkgvar" /\ c.fromPkg = "main" /\ c.home \in {"main", "dep"}
+       \* T1(x) where T1 of fromPkg and the type of x (of home) are identical struct types: field names must agree
+       [] v = "StructConversion" -> k = "field" /\ c.exported /\ c.fromPkg = "main" /\ c.home = "dep" /\ cl = "plain"
        [] OTHER -> FALSE
   /\ CASE cl = "plain" -> TRUE
        [] cl = "main" -> /\ ~c.exported
@@ -157,6 +160,9 @@ ViewNames(c, ToObf) ==
     [] c.view = "GoAsmHField" -> {GoAsmHFieldName(o, ToObf)}
     [] c.view = "GoAsmHConst" -> {GoAsmHConstName(o, ToObf)}
     [] c.view = "LdflagsX" -> LdflagsNames(o, ToObf)
+    \* the twin field declared in fromPkg: same struct identity, hence the same hashWithStruct salt, but the
+    \* decision to rename at all is taken per declaring package (lpkg.ToObfuscate of the field's package)
+    [] c.view = "StructConversion" -> {IF ToObf[c.fromPkg] THEN StructHash ELSE Keep}
 
 ConsistentCell(c, ToObf) ==
   /\ GoIdentName(c, ToObf) \in ViewNames(c, ToObf)
@@ -261,6 +267,8 @@ LeadClass(c) ==
     THEN "keepname-outside-go"       \* main/init/TestMain/TestX are kept only by obfuscatedObjectName
   ELSE IF c.view = "GoAsmHField" /\ c.kind \in Embedded
     THEN "goasmh-embedded"           \* go_asm.h offset macro of an embedded field
+  ELSE IF c.view = "StructConversion"
+    THEN "struct-conversion-mixed-scope"  \* identical struct types, only one of the two packages in GOGARBLE
   ELSE "none"
 IsLead(c) == LeadClass(c) # "none"
 
